@@ -10,6 +10,8 @@ import (
 	"hash/crc32"
 	"strings"
 	"time"
+
+	"github.com/google/reftable"
 )
 
 func init() { props["c18"] = runHostile }
@@ -249,10 +251,18 @@ func runHostile(c *ctx) error {
 		if t.cfg.SHA256 {
 			hs, fs = 28, 72
 		}
+		var starts []uint64
+		if rd0, _ := openReader(data); rd0 != nil {
+			starts = reftable.VerifBlockStarts(rd0)
+		}
 		for m := 0; m < nmut; m++ {
 			b := append([]byte{}, data...)
 			kind := ""
-			switch c.rng.Intn(10) {
+			mk := c.rng.Intn(12)
+			if mk == 11 {
+				mk = 10
+			}
+			switch mk {
 			case 0:
 				kind = "bitflip"
 				p := c.rng.Intn(len(b))
@@ -307,6 +317,27 @@ func runHostile(c *ctx) error {
 						v = c.rng.Intn(1 << uint(1+c.rng.Intn(23)))
 					}
 					b[p+1], b[p+2], b[p+3] = byte(v>>16), byte(v>>8), byte(v)
+				}
+			case 10:
+				kind = "block-len-boundary"
+				// the declared length of a real block (found with the reader itself, log blocks included)
+				// set to a boundary value: tiny, around the header, around the real length, maximal
+				if len(starts) > 0 {
+					bo := int(starts[c.rng.Intn(len(starts))])
+					p := bo
+					hdr := 0
+					if bo == 0 {
+						p, hdr = hs, hs
+					}
+					if p+4 < len(b)-fs {
+						cur := int(b[p+1])<<16 | int(b[p+2])<<8 | int(b[p+3])
+						vals := []int{0, 1, 2, 3, 4, 5, 6, 7, hdr + 3, hdr + 4, hdr + 5, hdr + 6, cur - 1, cur + 1, cur - 3, 1<<24 - 1}
+						v := vals[c.rng.Intn(len(vals))]
+						if v < 0 {
+							v = 0
+						}
+						b[p+1], b[p+2], b[p+3] = byte(v>>16), byte(v>>8), byte(v)
+					}
 				}
 			case 6:
 				kind = "splice"
